@@ -250,7 +250,12 @@ def run_case(case):
         delim, content = case["delim"], case["content"]
         closer = "]" + delim + "]"
         denoted = (content + closer)[:(content + closer).find(closer)]
-        if "\r" in denoted and tg.normalize_newlines(closer) in tg.normalize_newlines(denoted):
+        nd = tg.normalize_newlines(denoted)
+        nc = tg.normalize_newlines(closer)
+        # feature: a newline character in the delimiter and a CR in the content, such that the
+        # closer (or, since fix 70922de, a closer completed by the real closer) shows up in the
+        # content only after CR/CRLF -> LF normalisation
+        if ("\n" in delim or "\r" in delim) and "\r" in denoted and (nd + nc).find(nc) != len(nd):
             c2 = dict(case, content=content.replace("\r", "x"))
             if run_bracket(c2)["ok"] is True:
                 res["finding"] = KEY_NL_CLOSER
